@@ -1849,6 +1849,7 @@ def body_ilv_sys(data) -> Outcome:
 # "entered" and blocks until released, so the overlap is deterministic (never a timing accident).
 # =================================================================================================
 _GATE_FDS: list = []  # [entered_w, release_r] in the child that performs the in-flight put
+_GATE_THREADS: dict = {}  # thread ident -> (entered, release) events for an in-flight put from a thread of this process
 
 
 class _Gate:
@@ -1858,7 +1859,11 @@ class _Gate:
         self.payload = payload
 
     def __reduce__(self):
-        if _GATE_FDS:
+        ev = _GATE_THREADS.pop(threading.get_ident(), None)
+        if ev is not None:
+            ev[0].set()
+            ev[1].wait(60)
+        elif _GATE_FDS:
             entered_w, release_r = _GATE_FDS
             del _GATE_FDS[:]
             os.write(entered_w, b"e")
@@ -1888,6 +1893,7 @@ def overlap_cases(draw):
         "pre": [list(o) for o in draw(st.lists(op, max_size=3))],
         "during": [list(o) for o in draw(st.lists(op, min_size=1, max_size=4))],
         "writers": draw(st.sampled_from([1, 1, 2])),  # 2: a second in-flight put of the same key from a third process
+        "kind": draw(st.sampled_from(["process", "process", "thread"])),  # who has the put in flight
     }
 
 
@@ -1929,7 +1935,26 @@ def body_overlap(data) -> Outcome:
             if not apply(op, "pre"):
                 return out
         # in-flight puts of key 'a' by other processes
-        for w in range(data["writers"]):
+        threads: list = []
+        for w in range(data["writers"] if data.get("kind") == "thread" else 0):
+            entered, release, result = threading.Event(), threading.Event(), []
+
+            def writer(w=w, entered=entered, release=release, result=result):
+                _GATE_THREADS[threading.get_ident()] = (entered, release)
+                try:
+                    c.put("a", _Gate(f"inflight{w}"))
+                    result.append("k")
+                except BaseException as e:  # noqa: BLE001
+                    result.append("x" + exc_detail(e)[:300])
+
+            t = threading.Thread(target=writer, daemon=True)
+            t.start()
+            threads.append((t, release, result, w))
+            if not entered.wait(60):
+                out.labels.append("overlap-inconclusive-thread-never-entered")
+                release.set()
+                return out
+        for w in range(data["writers"] if data.get("kind") != "thread" else 0):
             e_r, e_w = os.pipe()
             r_r, r_w = os.pipe()
             res_r, res_w = os.pipe()
@@ -1970,11 +1995,21 @@ def body_overlap(data) -> Outcome:
                          {"writer": kid["w"]})
                 return out
             model.put("a", f"inflight{kid['w']}")
+        for t, release, result, w in threads:
+            env.wait_after_dir(d)
+            release.set()
+            t.join(60)
+            msg = result[0] if result else "xwriter thread did not finish"
+            if msg != "k":
+                out.fail(f"overlap-inflight-put-raised:{msg[1:].split(':')[0][:40]}", f"put of 'a' from thread {w} raised {msg[1:]}",
+                         {"writer": w, "kind": "thread"})
+                return out
+            model.put("a", f"inflight{w}")
         for i, k in enumerate(keys):
             if not apply(["in", i], "post") or not apply(["get", i], "post"):
                 return out
         apply(["len"], "post")
-        out.labels.append(f"overlap-writers{data['writers']}")
+        out.labels.append(f"overlap-writers{data['writers']}-{data.get('kind', 'process')}")
         out.labels.append("overlap-same-key-put-during" if overlapped_same_key else "overlap-other-ops-during")
         out.labels.append(f"overlap-max{data['max_size']}")
         out.nontrivial = True
